@@ -393,6 +393,27 @@ func runOnce(t *testing.T, sc scenario, c *dfs.Chooser) (res result) {
 			pk++
 		}
 	}
+	// pooled packets (this binary is built with the sync shim, so the packet block pool is a
+	// plain stack the harness can see): the harness disposes nothing, so every delivered packet
+	// is still undisposed; three more pooled decodes now take whatever blocks the library itself
+	// returned to the pool - the delivered packets must not be among them
+	if sc.cfg.pool && !sc.cfg.nocopy {
+		var later []gopacket.Packet
+		for k := 0; k < 3; k++ {
+			fillb := make([]byte, 48)
+			for i := range fillb {
+				fillb[i] = 0xAB
+			}
+			later = append(later, gopacket.NewPacket(fillb, gopacket.DecodePayload, gopacket.DecodeOptions{Pool: true}))
+		}
+		for i, g := range recv {
+			if i < npk && string(g.p.Data()) != string(pktBytes(i)) && string(g.data) == string(pktBytes(i)) {
+				add("pool|a delivered, undisposed pooled packet shares its block with a later pooled packet", fmt.Sprintf("position %d reads %x after three later pooled decodes, was %x", i, g.p.Data(), pktBytes(i)))
+				break
+			}
+		}
+		_ = later
+	}
 	for i, g := range recv {
 		if i >= npk {
 			break
